@@ -55,6 +55,7 @@ let aclass_name = function
   | AViewerSet -> "viewer-set" | AViewerCounter -> "viewer-counter" | AViewerUploader -> "viewer-uploader"
   | AViewerReportFalse -> "viewer-report-false-claim" | AViewerReportStackOmitted -> "viewer-report-stack-omitted"
   | AViewerChart -> "viewer-chart" | AViewerChartStack -> "viewer-chart-stack"
+  | AServerStoresOutside -> "server-stores-outside"
 
 let summary_name = function
   | SProgram -> "program" | SOsArch -> "osarch" | SGoVersion -> "goversion" | SVersion -> "version"
@@ -63,6 +64,38 @@ let sort_names l = List.sort Stdlib.compare (List.map string_of_bytes l)
 let show_names l = String.concat "," (List.map String.escaped l)
 
 (* one server judgement: DIFF model vs implementation, PROP oracle on the implementation's verdict *)
+let sort_map m = List.sort (fun (a, _) (b, _) -> Stdlib.compare (string_of_bytes a) (string_of_bytes b)) m
+let show_map m = String.concat "," (List.map (fun (k, v) -> esc k ^ "=" ^ tok_of_z v) m)
+let show_report_programs r =
+  String.concat "; " (List.map (fun (i, (cs, ss)) ->
+      Printf.sprintf "<%s> C{%s} S{%s}" (show_ident i) (show_map (sort_map cs)) (show_map (sort_map ss))) r.r_programs)
+let show_stored r =
+  Printf.sprintf "week=%s last=%s x=%s cfg=%s progs=[%s]" (esc r.r_week) (esc r.r_lastweek) (tok_of_n r.r_x) (esc r.r_config)
+    (show_report_programs r)
+
+(* what the handler stored for the request whose decoding is r and whose status is `status` *)
+let stored_case c u ~what r status =
+  let accepted = (status = 200) in
+  match next c with
+  | "stored" ->
+    let s = next_report c in
+    let extra = next_bool c in
+    (* model: the stored object is the re-encoded decoded report *)
+    if accepted then begin
+      if show_stored s <> show_stored r then diff (what ^ "-stored-object") ~model:(show_stored r) ~impl:(show_stored s);
+      if extra then diff (what ^ "-stored-members") ~model:"only the report format's" ~impl:"others too"
+    end else diff (what ^ "-stored") ~model:"nothing" ~impl:"an object";
+    List.iter (fun cl ->
+        prop (aclass_name cl)
+          (Printf.sprintf "%s report week=%s (handler answers %d): stored object, read as text: %s%s"
+             what (esc r.r_week) status (if extra then "[members outside the report format] " else "") (show_report_programs s)))
+      (stored_check u accepted (Some s) extra)
+  | "nostored" ->
+    if accepted then diff (what ^ "-stored") ~model:"the report" ~impl:"nothing";
+    List.iter (fun cl -> prop (aclass_name cl) (what ^ " report accepted but nothing stored"))
+      (stored_check u accepted None false)
+  | _ -> diff (what ^ "-stored") ~model:"a JSON report" ~impl:"unreadable object"
+
 let last_uploader_report : report option ref = ref None
 let server_case c u cfg ~from_uploader ~what =
   let r = next_report c in
@@ -77,6 +110,7 @@ let server_case c u cfg ~from_uploader ~what =
   let mstatus = int_of_n (server_status mv) in
   if mstatus <> status then diff (tag "status") ~model:(string_of_int mstatus) ~impl:(string_of_int status);
   if stored <> (status = 200) then diff (tag "stored") ~model:(string_of_bool (status = 200)) ~impl:(string_of_bool stored);
+  stored_case c u ~what r status;
   (* the oracle judges the outermost entry point: the upload handler's HTTP status *)
   (match (if status = 200 then Some VOk
           else match verdict_of_name vtag with
@@ -116,6 +150,7 @@ let handle kind c =
           let mstatus = int_of_n (server_status mv) in
           if mstatus <> status then diff "again-status" ~model:(string_of_int mstatus) ~impl:(string_of_int status);
           if stored <> (status = 200) then diff "again-stored" ~model:(string_of_bool (status = 200)) ~impl:(string_of_bool stored);
+          stored_case c u ~what:"again" r status;
           let week_ok = (match parse_date r.r_week with Some _ -> true | None -> false) in
           let iv = if status = 200 then VOk else (match verdict_of_name vtag with Some VOk | None -> VUnknownBuild | Some v -> v) in
           List.iter (fun cl ->
